@@ -1152,3 +1152,14 @@ V("C05", "ppid-map-first-paren", L,
   ("            rpar = data.rfind(b')')\n            dset = data[rpar + 2 :].split()\n            ppid = int(dset[1])",
    "            dset = data.partition(b') ')[2].split()\n            ppid = int(dset[1])"),
   "fires:C05.R6")
+V("C05", "flat-selects-wrong-column", I,
+  ("                if ppid == self.pid and pid != self.pid:", "                if pid != self.pid and ppid != self.pid:"),
+  "fires:C05.R2")
+V("C05", "recursive-children-not-pushed", I,
+  ("                            ret.append(child)\n                            stack.append(child_pid)",
+   "                            ret.append(child)"), "fires:C05.R2")
+V("C05", "reverse-map-inverted", I,
+  ("                reverse_ppid_map[ppid].append(pid)", "                reverse_ppid_map[pid].append(ppid)"),
+  "fires:C05.R2")
+V("C05", "walk-starts-elsewhere", I,
+  ("            stack = [self.pid]", "            stack = [self.ppid()]"), "fires:C05.R2")
